@@ -25,7 +25,8 @@ EXHAUSTIVE_NOTE = ("every cell of the operation x state table (primitives + 25 i
 RULE = ("one case = one table cell reached through a generated prefix history (prior acquire/release cycles by other "
         "tasks, initial values, other borrowers, buffer fill, how the scope came to be cancelled: own scope, parent "
         "scope, past deadline, after k already-delivered cancellations, or a scope above the task group of a child task "
-        "that makes the call while the host sits behind a shield); in the cancelled mode the cell's state snapshot is "
+        "that makes the call while the host sits behind a shield, during the shielded checkpoint of a prior operation, "
+        "or a shielded scope that is itself cancelled); in the cancelled mode the cell's state snapshot is "
         "also taken from a loop callback while the doomed call is suspended; every cell is non-trivial by construction; "
         "distinct = distinct (cell, cancelled, config, prefix)")
 ASSUMPTIONS = [
@@ -658,10 +659,12 @@ def run_case(case) -> Outcome:
                 with outer:
                     if how == "deadline":
                         inner = CancelScope(deadline=anyio.current_time() - 1)
+                    elif how == "own-shielded":
+                        inner = CancelScope(shield=True)      # a shield that has itself been cancelled
                     else:
                         inner = CancelScope()
                     with inner:
-                        if how == "own":
+                        if how in ("own", "own-shielded"):
                             inner.cancel()
                         elif how == "parent":
                             outer.cancel()
@@ -734,6 +737,7 @@ def enumerate_cases(tier):
                 if cancelled:
                     yield {"cell": name, "cancelled": True, "config": config, "pre": {"how": "above-group"}}
                     yield {"cell": name, "cancelled": True, "config": config, "pre": {"how": "during-shielded-checkpoint"}}
+                    yield {"cell": name, "cancelled": True, "config": config, "pre": {"how": "own-shielded"}}
 
 
 NAMES = sorted(ALL_CELLS)
@@ -747,7 +751,7 @@ def _gen(g):
            "waiters": g.int(0, 3), "after": g.int(0, 2), "size": g.choice([1, 2, 3, math.inf]), "fill": g.int(0, 3),
            "work": g.int(0, 2), "take": g.int(1, 4), "abandon": g.bool()}
     if cancelled:
-        pre["how"] = g.choice(["own", "parent", "deadline", "above-group", "during-shielded-checkpoint"])
+        pre["how"] = g.choice(["own", "parent", "deadline", "above-group", "during-shielded-checkpoint", "own-shielded"])
         pre["prior"] = g.int(0, 1)
         pre["delivered"] = g.int(0, 3)
     return {"cell": name, "cancelled": cancelled, "config": g.choice(["S", "E", "U"]), "pre": pre}
